@@ -46,6 +46,14 @@ string cid_s(const CID &c) {
   return vh::hex(b, sizeof(b));
 }
 
+struct Twin;
+// the real DMPE131Inflator; HandlePDUData additionally records the source name of the E1.31 header it is handed
+struct RecDmp : public DMPE131Inflator {
+  Twin *t;
+  RecDmp(bool ignore_preview, Twin *twin) : DMPE131Inflator(ignore_preview), t(twin) {}
+  bool HandlePDUData(uint32_t vector, const HeaderSet &headers, const uint8_t *data, unsigned int pdu_len);
+};
+
 struct Twin {
   ola::network::UDPSocket socket;
   ola::acn::RootInflator root;
@@ -67,7 +75,12 @@ struct Twin {
   ~Twin() { for (size_t i = 0; i < bufs.size(); i++) delete bufs[i]; }
   void ev(const string &s) { events += (events.empty() ? "" : "+") + s; }
   void hit(unsigned uni) { ev("d" + vh::str(uni)); }
+  void src(const HeaderSet &headers) {
+    const string n = headers.GetE131Header().Source();
+    ev("s" + vh::str(n.size()) + "." + vh::hex(n));
+  }
   void page(const HeaderSet &headers, const E131DiscoveryInflator::DiscoveryPage &p) {
+    src(headers);
     string s = "p" + cid_s(headers.GetRootHeader().GetCid()) + "." + vh::str(static_cast<unsigned>(p.page_number)) + "." +
                vh::str(static_cast<unsigned>(p.last_page)) + ".";
     for (size_t i = 0; i < p.universes.size(); i++) s += (i ? "_" : "") + vh::str(static_cast<unsigned>(p.universes[i]));
@@ -83,7 +96,7 @@ struct Twin {
   }
   void setup(const string &spec) {
     vector<string> hs = vh::split(spec, ',');
-    dmp.reset(new DMPE131Inflator(hs[0] == "1"));
+    dmp.reset(new RecDmp(hs[0] == "1", this));
     disc.reset(new E131DiscoveryInflator(ola::NewCallback(this, &Twin::page)));
     transport.reset(new ola::acn::IncomingUDPTransport(&socket, &root));
     socket.Init();
@@ -127,6 +140,11 @@ struct Twin {
     return r;
   }
 };
+
+bool RecDmp::HandlePDUData(uint32_t vector, const HeaderSet &headers, const uint8_t *data, unsigned int pdu_len) {
+  t->src(headers);
+  return DMPE131Inflator::HandlePDUData(vector, headers, data, pdu_len);
+}
 
 string do_acn(const vector<string> &a) {
   if (a.size() < 3) return "bad-args";
